@@ -30,7 +30,7 @@ import (
 	"path/filepath"
 	"regexp"
 	"sort"
-		"strconv"
+	"strconv"
 	"strings"
 	"syscall"
 	"time"
@@ -73,11 +73,12 @@ func mkProbe(entry string, in []byte) probe {
 }
 
 type harness struct {
-	s       *kit.Summary
-	sandbox string
-	root    string // directory the harness was started in (/verif): corpus/ lives there
-	self    string // path of this executable (re-executed as the worker)
-	maxA    map[string][2]uint64 // entry -> (alloc, len) of the largest allocation seen
+	s                *kit.Summary
+	sandbox          string
+	root             string               // directory the harness was started in (/verif): corpus/ lives there
+	self             string               // path of this executable (re-executed as the worker)
+	maxA             map[string][2]uint64 // entry -> (alloc, len) of the largest allocation seen
+	timeouts, deaths map[string]int
 }
 
 // judge evaluates one answer of the worker process (see worker.go): panic, death of the
@@ -85,6 +86,9 @@ type harness struct {
 // allocation budget.
 func (h *harness) judge(entry string, in []byte, r resp) string {
 	switch r.status {
+	case "skipped":
+		h.s.Skipped["after repeated timeouts or crashes:"+entry]++
+		return "skipped"
 	case "timeout":
 		h.s.Violate(kit.Violation{Kind: "timeout:" + entry, What: "parser call did not return within the deadline", Input: mkProbe(entry, in),
 			Expected: "value or error in bounded time", Observed: "no return after " + deadline.String(), Key: map[string]interface{}{"entry": entry}})
@@ -136,11 +140,31 @@ func (h *harness) judge(entry string, in []byte, r resp) string {
 
 /* ---------- entry points ---------- */
 
-func decodeAll(dec vegeta.Decoder, n int, keep *[]vegeta.Result) string {
+// modeOf: how an input is fed to the entry point, derived from the input itself (so that a
+// replay takes the same path): bit 0 = one Result / Target value reused for all calls (as
+// `report`, `encode` and the attacker's workers do) instead of a fresh one per call,
+// bit 1 = nil default body and header for the targeters.
+func modeOf(in []byte) int {
+	h := fnv.New32a()
+	h.Write(in)
+	return int(h.Sum32() >> 7 & 3)
+}
+
+// decodeAll calls Decode until the first error (at most n+3 times: more successes than bytes is
+// a decoder that returns without consuming), then twice more: a decoder must also survive being
+// used after it reported an error or the end of the stream.
+func decodeAll(dec vegeta.Decoder, n int, keep *[]vegeta.Result, mode int) string {
 	ok := 0
+	var shared vegeta.Result
 	for i := 0; i < n+3; i++ {
-		var r vegeta.Result
-		if err := dec.Decode(&r); err != nil {
+		r := &vegeta.Result{}
+		if mode&1 == 1 {
+			r = &shared
+		}
+		if err := dec.Decode(r); err != nil {
+			for j := 0; j < 2; j++ {
+				_ = dec.Decode(r)
+			}
 			if err == io.EOF {
 				return fmt.Sprintf("eof %d", ok)
 			}
@@ -148,31 +172,37 @@ func decodeAll(dec vegeta.Decoder, n int, keep *[]vegeta.Result) string {
 		}
 		ok++
 		if keep != nil {
-			*keep = append(*keep, r)
+			*keep = append(*keep, *r)
 		}
 	}
 	return "hang"
 }
 
 func entryGob(in []byte) string {
-	return decodeAll(vegeta.NewDecoder(bytes.NewReader(in)), len(in), nil)
+	return decodeAll(vegeta.NewDecoder(bytes.NewReader(in)), len(in), nil, modeOf(in))
 }
 func entryJSON(in []byte) string {
-	return decodeAll(vegeta.NewJSONDecoder(bytes.NewReader(in)), len(in), nil)
+	return decodeAll(vegeta.NewJSONDecoder(bytes.NewReader(in)), len(in), nil, modeOf(in))
 }
 func entryAuto(in []byte) string {
 	dec := vegeta.DecoderFor(bytes.NewReader(in))
 	if dec == nil {
 		return "nil"
 	}
-	return decodeAll(dec, len(in), nil)
+	return decodeAll(dec, len(in), nil, modeOf(in))
 }
 
-func targetAll(t vegeta.Targeter, n int) string {
+// targetAll calls the targeter until ErrNoTargets (errors in between do not stop it: the
+// targeter is used again after an error), then twice more.
+func targetAll(t vegeta.Targeter, n int, mode int) string {
 	ok, bad, first := 0, 0, ""
+	shared := vegeta.Target{Header: http.Header{"X-Kept": {"from an earlier call"}}}
 	for i := 0; i < n+3; i++ {
-		var tgt vegeta.Target
-		err := t(&tgt)
+		tgt := &vegeta.Target{}
+		if mode&1 == 1 {
+			tgt = &shared
+		}
+		err := t(tgt)
 		if i == 0 {
 			switch {
 			case err == vegeta.ErrNoTargets:
@@ -184,6 +214,9 @@ func targetAll(t vegeta.Targeter, n int) string {
 			}
 		}
 		if err == vegeta.ErrNoTargets {
+			for j := 0; j < 2; j++ {
+				_ = t(tgt)
+			}
 			return fmt.Sprintf("%s ok=%d bad=%d", first, ok, bad)
 		} else if err != nil {
 			bad++
@@ -194,11 +227,22 @@ func targetAll(t vegeta.Targeter, n int) string {
 	return "hang"
 }
 
+func targeterDefaults(mode int) ([]byte, http.Header) {
+	if mode&2 == 2 {
+		return nil, nil
+	}
+	return []byte("default"), http.Header{"X-Default": {"1", "2"}, "x-lower": {"v"}}
+}
+
 func entryHTTPTargeter(in []byte) string {
-	return targetAll(vegeta.NewHTTPTargeter(bytes.NewReader(in), []byte("default"), http.Header{"X-Default": {"1"}}), len(in))
+	m := modeOf(in)
+	b, h := targeterDefaults(m)
+	return targetAll(vegeta.NewHTTPTargeter(bytes.NewReader(in), b, h), len(in), m)
 }
 func entryJSONTargeter(in []byte) string {
-	return targetAll(vegeta.NewJSONTargeter(bytes.NewReader(in), []byte("default"), http.Header{"X-Default": {"1"}}), len(in))
+	m := modeOf(in)
+	b, h := targeterDefaults(m)
+	return targetAll(vegeta.NewJSONTargeter(bytes.NewReader(in), b, h), len(in), m)
 }
 
 func entryBuckets(in []byte) string {
@@ -439,14 +483,28 @@ func runVegetaTimed(bin string, ops []string, d time.Duration) ([]string, int64,
 type flagEntry struct {
 	name, implOp, modelOp string
 	valid                 func(r *kit.Rng) string
+	fixed                 []string // every one of these is tried once
+	multi                 bool     // the op takes several values set one after the other on the same flag value (separator 0x1f)
+}
+
+// flagArgs: the hex arguments of one op
+func (fe flagEntry) flagArgs(v string) string {
+	if !fe.multi {
+		return kit.HexS(v)
+	}
+	parts := strings.Split(v, "\x1f")
+	for i := range parts {
+		parts[i] = kit.HexS(parts[i])
+	}
+	return strings.Join(parts, " ")
 }
 
 var flagEntries = []flagEntry{
-	{"flag_rate", "flag.rate", "c19.rate", func(r *kit.Rng) string { return gen.Rate(r).Text }},
-	{"flag_header", "flag.headers", "c19.headers", func(r *kit.Rng) string { return gen.Header(r).Text }},
-	{"flag_max_body", "flag.maxbody", "c19.maxbody", func(r *kit.Rng) string { return gen.Size(r).Text }},
-	{"flag_connect_to", "flag.connectto", "c19.connectto", func(r *kit.Rng) string { return gen.ConnectTo(r).Text }},
-	{"flag_dns_ttl", "flag.dnsttl", "c19.dnsttl", func(r *kit.Rng) string { return gen.TTL(r).Text }},
+	{"flag_rate", "flag.rate", "c19.rate", func(r *kit.Rng) string { return gen.Rate(r).Text }, gen.RateMalformed, false},
+	{"flag_header", "flag.headers", "c19.headers", func(r *kit.Rng) string { return gen.Header(r).Text }, gen.HeaderMalformed, true},
+	{"flag_max_body", "flag.maxbody", "c19.maxbody", func(r *kit.Rng) string { return gen.Size(r).Text }, gen.SizeMalformed, false},
+	{"flag_connect_to", "flag.connectto", "c19.connectto", func(r *kit.Rng) string { return gen.ConnectTo(r).Text }, gen.ConnectToMalformed, true},
+	{"flag_dns_ttl", "flag.dnsttl", "c19.dnsttl", func(r *kit.Rng) string { return gen.TTL(r).Text }, gen.TTLMalformed, false},
 	{"flag_resolvers", "flag.resolvers", "c19.resolvers", func(r *kit.Rng) string {
 		n := 1 + r.Pick(3)
 		parts := make([]string, n)
@@ -454,7 +512,7 @@ var flagEntries = []flagEntry{
 			parts[i] = gen.Resolver(r).Text
 		}
 		return strings.Join(parts, ",")
-	}},
+	}, gen.ResolverMalformed, false},
 }
 
 // flagBatch: the values through the real flag parser (one vegeta process, overall deadline)
@@ -463,7 +521,11 @@ func (h *harness) flagBatch(c *run.Ctx, fe flagEntry, vals []string) {
 	s := h.s
 	ops := make([]string, len(vals))
 	for i, v := range vals {
-		ops[i] = fe.implOp + " " + kit.HexS(v)
+		ops[i] = fe.implOp + " " + fe.flagArgs(v)
+	}
+	if h.timeouts[fe.name] >= 3 {
+		s.Skipped["after repeated failures of the flag-parsing process:"+fe.name] += len(vals)
+		return
 	}
 	outs, rss, err := runVegetaTimed(c.Vegeta, ops, deadline+time.Duration(len(ops))*2*time.Millisecond)
 	if rss > 0 {
@@ -481,12 +543,14 @@ func (h *harness) flagBatch(c *run.Ctx, fe flagEntry, vals []string) {
 	}
 	if err != nil {
 		if len(vals) == 1 {
-			s.Violate(kit.Violation{Kind: "timeout:" + fe.name, What: "flag parser did not answer: " + err.Error(), Input: mkProbe(fe.name, []byte(vals[0]))})
+			h.timeouts[fe.name]++
+			s.Violate(kit.Violation{Kind: "timeout:" + fe.name, What: "flag parser did not answer: " + err.Error(), Input: mkProbe(fe.name, []byte(vals[0])),
+				Key: map[string]interface{}{"entry": fe.name}})
 			return
 		}
-		for _, v := range vals {
-			h.flagBatch(c, fe, []string{v})
-		}
+		// bisect towards the value(s) that make the process hang or die
+		h.flagBatch(c, fe, vals[:len(vals)/2])
+		h.flagBatch(c, fe, vals[len(vals)/2:])
 		return
 	}
 	st := &kit.Stream{Name: fe.name}
@@ -501,7 +565,10 @@ func (h *harness) flagBatch(c *run.Ctx, fe flagEntry, vals []string) {
 			o = "panic"
 		}
 		s.Count(fe.name + ":" + strings.Fields(o + " _")[0])
-		st.Add(fe.modelOp+" "+kit.HexS(v), o)
+		if fe.multi && strings.Contains(v, "\x1f") {
+			s.Count(fe.name + ":several values on one flag")
+		}
+		st.Add(fe.modelOp+" "+fe.flagArgs(v), o)
 	}
 	st.Diff(c.Driver, s)
 }
@@ -524,6 +591,15 @@ func (h *harness) evalBatch(c *run.Ctx, e inproc, ins [][]byte, kinds []string, 
 		out := h.judge(e.name, in, resps[i])
 		s.Case(keyOf(e.name, in), len(in) > 0)
 		s.Count(e.name + ":" + kinds[i] + ":" + strings.Fields(out + " _")[0])
+		if e.name != "buckets" {
+			s.Count(fmt.Sprintf("%s:mode reuse=%d nil-defaults=%d", e.name, modeOf(in)&1, modeOf(in)>>1&1))
+		}
+		if len(in) >= 4096 {
+			s.Count(e.name + ":len>=4096")
+		}
+		if len(in) >= 65536 {
+			s.Count(e.name + ":len>=65536")
+		}
 		if sample && i < 1 && e.name != "gob" {
 			s.Sample(map[string]interface{}{"entry": e.name, "input": mkProbe(e.name, in).Text, "impl": out})
 		}
@@ -546,7 +622,11 @@ func (h *harness) evalBatch(c *run.Ctx, e inproc, ins [][]byte, kinds []string, 
 				csvCompare(st, in, out, results)
 			}
 		case "http_targeter":
-			if f := strings.Fields(out); len(f) > 0 && (f[0] == "none" || f[0] == "some") {
+			longLine := false // the model leaves out bufio.Scanner's 64 KiB token limit
+			for _, l := range bytes.Split(in, []byte("\n")) {
+				longLine = longLine || len(l) >= 60000
+			}
+			if f := strings.Fields(out); !longLine && len(f) > 0 && (f[0] == "none" || f[0] == "some") {
 				st.Add("c16.httpskip "+kit.Hex(in), f[0])
 				if len(f) == 4 { // "some <line> ok= bad=": the offending line is known from the error text
 					st.Add("c16.httpskipline "+kit.Hex(in), f[0]+" "+f[1])
@@ -600,7 +680,7 @@ func loadProbe(path string) (string, []byte) {
 func runC16(c *run.Ctx, s *kit.Summary) {
 	r := kit.NewRng(c.Seed)
 	s.Rule = "per entry point: uniformly random bytes; valid documents of the format (results encoded by the repo's own encoders, target files, bucket specs, flag values); structured mutations of valid documents (bit flips, deletions, duplications, truncations, insertions, half swaps, splices of two documents); non-trivial = distinct non-empty input"
-	h := &harness{s: s, maxA: map[string][2]uint64{}}
+	h := &harness{s: s, maxA: map[string][2]uint64{}, timeouts: map[string]int{}, deaths: map[string]int{}}
 	h.root, _ = os.Getwd()
 	h.self, _ = os.Executable()
 
@@ -629,6 +709,17 @@ func runC16(c *run.Ctx, s *kit.Summary) {
 
 	corpus(c, h, entries)
 
+	for _, e := range entries {
+		// hand-made unusual documents of the format and documents whose sizes straddle the
+		// buffer sizes of the readers involved (4096, 65536)
+		ex, exKinds := exoticInputs(e.name, r)
+		for i := range ex {
+			if e.pre != nil {
+				ex[i] = e.pre(ex[i])
+			}
+		}
+		h.evalBatch(c, e, ex, exKinds, false)
+	}
 	for _, e := range entries {
 		n := c.N(8000, 400000)
 		const chunk = 50000
@@ -663,16 +754,22 @@ func runC16(c *run.Ctx, s *kit.Summary) {
 
 	for _, fe := range flagEntries {
 		n := c.N(6000, 300000)
-		var vals []string
-		for i := 0; i < n; i++ {
-			var v string
+		vals := append([]string{""}, fe.fixed...)
+		one := func() string {
 			switch k := r.Pick(10); {
 			case k < 2:
-				v = string(gen.RandomBytes(r, 60))
+				return string(gen.RandomBytes(r, 60))
 			case k < 4:
-				v = fe.valid(r)
-			default:
-				v = string(gen.MutateDoc(r, []byte(fe.valid(r)), []byte(fe.valid(r))))
+				return fe.valid(r)
+			}
+			return string(gen.MutateDoc(r, []byte(fe.valid(r)), []byte(fe.valid(r))))
+		}
+		for i := 0; i < n; i++ {
+			v := one()
+			if fe.multi && r.Chance(0.4) { // state of the flag value carried from one Set to the next
+				for j := 0; j <= r.Pick(3); j++ {
+					v += "\x1f" + one()
+				}
 			}
 			s.Case(keyOf(fe.name, []byte(v)), len(v) > 0)
 			vals = append(vals, v)
